@@ -137,3 +137,90 @@ Proof.
   - apply ctor_inv; unfold Qlt, Qle; cbn; lia.
   - repeat constructor; unfold Qlt, Qle; cbn; lia.
 Qed.
+
+(* =============================================================================================
+   Cross-property glue (lemmas in Proofs/ImageGlueP.v): C12 -> C04 / C11 / C13.
+   The meshes of a state are handed, through Q2R, to the transform model of C04 (Model/ImageM.v, over R);
+   the companion theorems image_on_imager_state / history_then_transform are at the end of Properties/C04.v,
+   pixels_nonneg_on_imager_state / uniform_mass_conserved_on_imager_state at the end of Properties/C11.v. *)
+From Coq Require Import Reals Qreals.
+From Persim Require Spec.ImageS Model.ImageM Proofs.ImageP Model.ImageKernelM Proofs.ImageGlueP.
+
+(* the meshes of a consistent state, read over R, are what C04 / C11 ask of a mesh: res+1 non-decreasing
+   nodes per axis, node i = lo + i * ps, spanning exactly [blo, bhi] x [plo, phi] *)
+Theorem imager_mesh_feeds_transform : forall s : state QNum, Inv s ->
+  (0 < psz s /\ (0 <= resw s)%Z /\ (0 <= resh s)%Z) /\
+  length (map Q2R (bpnts s)) = Z.to_nat (resw s + 1) /\ length (map Q2R (ppnts s)) = Z.to_nat (resh s + 1) /\
+  (forall i, (Z.of_nat i < resw s)%Z ->
+     (nth i (map Q2R (bpnts s)) 0%R, nth (S i) (map Q2R (bpnts s)) 0%R)
+     = (Q2R (blo s) + INR i * Q2R (psz s), Q2R (blo s) + (INR i + 1) * Q2R (psz s))%R) /\
+  (forall j, (Z.of_nat j < resh s)%Z ->
+     (nth j (map Q2R (ppnts s)) 0%R, nth (S j) (map Q2R (ppnts s)) 0%R)
+     = (Q2R (plo s) + INR j * Q2R (psz s), Q2R (plo s) + (INR j + 1) * Q2R (psz s))%R) /\
+  ImageS.nondecr (map Q2R (bpnts s)) /\ ImageS.nondecr (map Q2R (ppnts s)) /\
+  ImageP.span (map Q2R (bpnts s)) = (Q2R (blo s), Q2R (bhi s)) /\
+  ImageP.span (map Q2R (ppnts s)) = (Q2R (plo s), Q2R (phi s)).
+Proof.
+  intros s HI. destruct (ImageGlueP.inv_meshes s HI) as (A & B & C & D & E & F & G & H & I).
+  destruct (ImageGlueP.span_on_state s HI) as (J & K).
+  repeat split; assumption.
+Qed.
+Print Assumptions imager_mesh_feeds_transform.
+
+(* H4: fit, then transform (fit_transform).  From ANY consistent state, after Fit on a collection c:
+   (1) the state is consistent;
+   (2) every point _transform then processes for a diagram of c (C04's skew over R = fit's skew over Q) lies in
+       the covered region [blo, bhi] x [plo, phi];
+   (3) a fitted point off the upper edges is located (imager_locate_pixel) in an EXISTING pixel (i, j), and that
+       pixel's square [blo + i ps, blo + (i+1) ps) x [plo + j ps, plo + (j+1) ps) contains it;
+   (4) with kernel = images_kernels.uniform (model of C13), any width, height > 0, any weight:
+       a diagram of c all of whose kernel boxes lie inside the covered region keeps its whole weight
+       (image total = total weight), and a fitted point whose box lies inside pixel (i, j) gives that pixel
+       its whole weight. *)
+Theorem fit_covers_points_then_mass : forall (s : state QNum) (c : coll QNum) (k : bool), Inv s ->
+  let s' := step QNum s (Fit c k) in
+  let q2r := fun p : Q * Q => (Q2R (fst p), Q2R (snd p)) in
+  let sq_b := fun i : nat => (Q2R (blo s') + INR i * Q2R (psz s'), Q2R (blo s') + (INR i + 1) * Q2R (psz s'))%R in
+  let sq_p := fun j : nat => (Q2R (plo s') + INR j * Q2R (psz s'), Q2R (plo s') + (INR j + 1) * Q2R (psz s'))%R in
+  Inv s' /\
+  (forall d, In d (fst c :: snd c) -> forall pt, In pt (ImageM.to_birth_pers k (map q2r (fst d :: snd d))) ->
+     (Q2R (blo s') <= fst pt <= Q2R (bhi s') /\ Q2R (plo s') <= snd pt <= Q2R (phi s'))%R) /\
+  (forall p, In p (coll_points k c) -> fst p < bhi s' -> snd p < phi s' ->
+     exists i j : nat,
+       locate QNum (bpnts s') (fst p) = Z.of_nat i /\ (Z.of_nat i < resw s')%Z /\
+       locate QNum (ppnts s') (snd p) = Z.of_nat j /\ (Z.of_nat j < resh s')%Z /\
+       (fst (sq_b i) <= Q2R (fst p) < snd (sq_b i) /\ fst (sq_p j) <= Q2R (snd p) < snd (sq_p j))%R) /\
+  (forall Phi Kgauss w wd ht, (0 < wd)%R -> (0 < ht)%R ->
+     (forall d, In d (fst c :: snd c) ->
+        (forall pt, In pt (ImageM.to_birth_pers k (map q2r (fst d :: snd d))) ->
+           (Q2R (blo s') <= fst pt - wd / 2 /\ fst pt + wd / 2 <= Q2R (bhi s') /\
+            Q2R (plo s') <= snd pt - ht / 2 /\ snd pt + ht / 2 <= Q2R (phi s'))%R) ->
+        ImageS.img_total (ImageM.transform_one Phi Kgauss k w (ImageM.OtherKernel (ImageKernelM.uniform_kernelM wd ht))
+                            (map Q2R (bpnts s')) (map Q2R (ppnts s')) (map q2r (fst d :: snd d)))
+        = ImageS.total_weight w (map q2r (dgm_points QNum k d))) /\
+     (forall p i j, In p (coll_points k c) -> (Z.of_nat i < resw s')%Z -> (Z.of_nat j < resh s')%Z ->
+        (fst (sq_b i) <= Q2R (fst p) - wd / 2)%R -> (Q2R (fst p) + wd / 2 <= snd (sq_b i))%R ->
+        (fst (sq_p j) <= Q2R (snd p) - ht / 2)%R -> (Q2R (snd p) + ht / 2 <= snd (sq_p j))%R ->
+        nth j (nth i (ImageM.transform_one Phi Kgauss false w (ImageM.OtherKernel (ImageKernelM.uniform_kernelM wd ht))
+                        (map Q2R (bpnts s')) (map Q2R (ppnts s')) [q2r p]) []) 0%R
+        = w (Q2R (fst p)) (Q2R (snd p)))).
+Proof. exact ImageGlueP.fit_then_transform. Qed.
+Print Assumptions fit_covers_points_then_mass.
+
+(* non-vacuity: from the constructor's state (0,1)x(0,1), ps = 3/10, fit the two points (0,4), (1/2,13/5) given in
+   birth-persistence coordinates; the fitted point (1/2, 13/5) is off the upper edges, and a 1/10 x 1/10 box around
+   it lies inside the covered region [-1/20, 11/20] x [13/5 - 1/20, 4 + 1/20] *)
+Example fit_covers_points_then_mass_hyp_satisfiable :
+  let c : coll QNum := (((0, 4), [(1 # 2, 13 # 5)]), []) in
+  let s' := step QNum (ctor QNum 0 1 0 1 (3 # 10)) (Fit c false) in
+  Inv (ctor QNum 0 1 0 1 (3 # 10)) /\ In (1 # 2, 13 # 5) (coll_points false c) /\
+  (resw s', resh s') = (2, 5)%Z /\
+  1 # 2 < bhi s' /\ 13 # 5 < phi s' /\
+  blo s' <= (1 # 2) - (1 # 20) /\ (1 # 2) + (1 # 20) <= bhi s' /\
+  plo s' <= (13 # 5) - (1 # 20) /\ (13 # 5) + (1 # 20) <= phi s'.
+Proof.
+  cbv zeta. split; [apply ctor_inv; unfold Qlt, Qle; cbn; lia|].
+  split; [right; left; vm_compute; reflexivity|].
+  split; [vm_compute; reflexivity|].
+  repeat split; vm_compute; congruence.
+Qed.
